@@ -1,6 +1,6 @@
 PROP = dict(
     props="Props/C09.v",
-    tie={"modules": ["TieC09"],
+    tie={"modules": ["GoSem", "Abi", "VmReceive", "Emb", "TieC09"],
          "fns": {"abi_unpack_method": ("abi_unpack_method_run", "abi_out_eqb", "(bytes * list ty * bytes) * abi_out"),
                  "abi_unpack_empty": ("abi_unpack_empty_run", "Z.eqb", "(bytes * bytes) * Z"),
                  "vm_receive": ("vm_receive_run", "vm_receive_eqb", "(bytes * Z * bytes * bool * list (bytes * Z * bytes)) * (Z * list (bytes * Z * bytes))"),
@@ -10,8 +10,8 @@ PROP = dict(
                  "emb_htlc": ("emb_htlc_run", "emb_htlc_eqb", "emb_in hstore * emb_out hstore"),
                  "emb_token": ("emb_token_run", "emb_token_eqb", "emb_in tstore * emb_out tstore"),
                  "emb_common": ("emb_common_run", "emb_common_eqb", "emb_in cstore * emb_out cstore")}},
-    suites=[{"bin": "c09", "name": "abi", "n": {"quick": 1600, "thorough": 30000}},
-            {"bin": "c09", "name": "calls", "n": {"quick": 60, "thorough": 1500}, "timeout": 3000},
+    suites=[{"bin": "c09", "name": "abi", "n": {"quick": 1500, "thorough": 30000}},
+            {"bin": "c09", "name": "calls", "n": {"quick": 44, "thorough": 1500}, "timeout": 3000},
             {"bin": "c09", "name": "removed", "n": {"quick": 10, "thorough": 100}}],
     rule="abi: every method of every embedded ABI, canonical encodings of boundary values mutated by truncation, bad selector, hostile offset/length words (0, len+-k, 2^31, 2^32, 2^63+-k, 2^64-k, 2^255, 2^256-k), non-canonical padding, aliased offsets, dropped/inserted words, trailing and random bytes, through the real UnpackMethod/UnpackEmptyMethod under recover; "
          "calls: histories on a real node under each spork regime (origin, accelerator, bridge+liquidity, htlc), every (contract, method) pair of the ABIs, arguments from pools (known entry ids, owners, issued tokens, names, preimages) and boundary classes, amounts {natural, 0, 1, 2^255-1, whole balance,...} x tokens {ZNN, QSR, issued, foreign, zero}, 1/6 of the calls with mutated ABI encodings; every accepted send is received through vm.Supervisor.GenerateAutoReceive under the harness's recover; "
